@@ -116,3 +116,107 @@ def siphash(msg, key, outlen=8):
             rnd()
         out += bytes_le(xor(xor(v[0], v[1]), xor(v[2], v[3])))
     return out
+
+
+# ---- SHA-256 / SHA-512 (FIPS 180-4) over irsym words -------------------------------------------------------------
+# Ch and Maj are written in the usual and-xor-reduced form; its equality with the FIPS 180-4 definitions is checked
+# exhaustively over the 8 input combinations here (bitwise functions: one bit position decides all).
+for _x in (0, 1):
+    for _y in (0, 1):
+        for _z in (0, 1):
+            assert ((_x & (_y ^ _z)) ^ _z) == ((_x & _y) ^ ((1 - _x) & _z)), "Ch"
+            assert ((_x & (_y | _z)) | (_y & _z)) == ((_x & _y) ^ (_x & _z) ^ (_y & _z)), "Maj"
+
+
+def _primes(n):
+    out, c = [], 2
+    while len(out) < n:
+        if all(c % p for p in out):
+            out.append(c)
+        c += 1
+    return out
+
+
+def _frac_root(p, k, bits):
+    """first `bits` bits of the fractional part of p^(1/k) (integer arithmetic)"""
+    lo, hi = 0, 1 << (bits + 8)
+    target = p << (k * bits)
+    while lo < hi:                       # floor(p^(1/k) * 2^bits)
+        mid = (lo + hi + 1) // 2
+        if mid ** k <= target:
+            lo = mid
+        else:
+            hi = mid - 1
+    return lo & ((1 << bits) - 1)
+
+
+K256 = [_frac_root(p, 3, 32) for p in _primes(64)]
+H256 = [_frac_root(p, 2, 32) for p in _primes(8)]
+K512 = [_frac_root(p, 3, 64) for p in _primes(80)]
+H512 = [_frac_root(p, 2, 64) for p in _primes(8)]
+assert K256[0] == 0x428a2f98 and H256[0] == 0x6a09e667 and K512[79] == 0x6c44198c4a475817 and H512[7] == 0x5be0cd19137e2179
+
+
+def sha2(msg, bits=256):
+    """msg: list of byte values; returns the digest bytes (32 or 64)"""
+    w = 32 if bits == 256 else 64
+    K, H0 = (K256, H256) if bits == 256 else (K512, H512)
+    rounds = 64 if bits == 256 else 80
+    bs = 64 if bits == 256 else 128
+    R = ((2, 13, 22), (6, 11, 25), (7, 18, 3), (17, 19, 10)) if bits == 256 else ((28, 34, 39), (14, 18, 41), (1, 8, 7), (19, 61, 6))
+    AND = lambda a, b: T.binop("and", a, b, w)
+    OR = lambda a, b: T.binop("or", a, b, w)
+    X = lambda a, b: T.binop("xor", a, b, w)
+    ADD = lambda a, b: T.binop("add", a, b, w)
+    ROTR = lambda x, n: T.fsh(False, x, x, n, w)
+    SHR = lambda x, n: T.binop("lshr", x, n, w)
+    S0 = lambda x: X(X(ROTR(x, R[0][0]), ROTR(x, R[0][1])), ROTR(x, R[0][2]))
+    S1 = lambda x: X(X(ROTR(x, R[1][0]), ROTR(x, R[1][1])), ROTR(x, R[1][2]))
+    s0 = lambda x: X(X(ROTR(x, R[2][0]), ROTR(x, R[2][1])), SHR(x, R[2][2]))
+    s1 = lambda x: X(X(ROTR(x, R[3][0]), ROTR(x, R[3][1])), SHR(x, R[3][2]))
+    Ch = lambda x, y, z: X(AND(x, X(y, z)), z)
+    Maj = lambda x, y, z: OR(AND(x, OR(y, z)), AND(y, z))
+    n = len(msg)
+    lb = bs // 8
+    data = list(msg) + [0x80]
+    while (len(data) + lb) % bs:
+        data.append(0)
+    data += [((8 * n) >> (8 * (lb - 1 - i))) & 0xff for i in range(lb)]
+    h = list(H0)
+    for off in range(0, len(data), bs):
+        blk = data[off:off + bs]
+        W = []
+        for i in range(16):
+            acc, ww = blk[(w // 8) * i], 8
+            for b in blk[(w // 8) * i + 1:(w // 8) * (i + 1)]:       # big endian
+                acc = T.concat(acc, b, ww, 8)
+                ww += 8
+            W.append(acc)
+        for i in range(16, rounds):
+            W.append(ADD(ADD(ADD(s1(W[i - 2]), W[i - 7]), s0(W[i - 15])), W[i - 16]))
+        a, b, c, d, e, f, g, hh = h
+        for i in range(rounds):
+            t1 = ADD(ADD(ADD(ADD(hh, S1(e)), Ch(e, f, g)), K[i]), W[i])
+            t2 = ADD(S0(a), Maj(a, b, c))
+            hh, g, f, e, d, c, b, a = g, f, e, ADD(d, t1), c, b, a, ADD(t1, t2)
+        h = [ADD(x, y) for x, y in zip(h, (a, b, c, d, e, f, g, hh))]
+    out = []
+    for x in h:
+        out += [T.extract(x, 8 * (w // 8 - 1 - i) + 7, 8 * (w // 8 - 1 - i)) if isinstance(x, T.Term) else (x >> (8 * (w // 8 - 1 - i))) & 0xff for i in range(w // 8)]
+    return out
+
+
+def expand_message_xmd(msg, dst, n, bits):
+    """RFC 9380 5.3.1 / 5.3.3 with H = SHA-256 / SHA-512; msg: list of byte values, dst: bytes (concrete)"""
+    hb, bs = bits // 8, (64 if bits == 256 else 128)
+    dst = list(dst)
+    if len(dst) > 255:
+        dst = sha2(list(b"H2C-OVERSIZE-DST-") + dst, bits)
+    dstp = dst + [len(dst)]
+    ell = (n + hb - 1) // hb
+    b0 = sha2([0] * bs + list(msg) + [n >> 8, n & 0xff, 0] + dstp, bits)
+    out, bi = [], [0] * hb
+    for i in range(1, ell + 1):
+        bi = sha2([T.binop("xor", x, y, 8) for x, y in zip(b0, bi)] + [i] + dstp, bits)
+        out += bi
+    return out[:n]
